@@ -321,7 +321,6 @@ func judge(c *HTTPCase) (verdict, []*decodedReq, bool) {
 				return vUndecodable, nil, batch
 			}
 			for _, p := range paths {
-				used[p]++
 				if !pathResolvesToNull(p, reqs, batch) {
 					if pathEndsAtObject(p, reqs, batch) {
 						v = vEither
@@ -329,6 +328,7 @@ func judge(c *HTTPCase) (verdict, []*decodedReq, bool) {
 					}
 					return vUndecodable, nil, batch
 				}
+				used[p]++ // only a null slot can be claimed twice; a path that ends at an object is left open above
 			}
 		}
 		for _, n := range used {
